@@ -135,6 +135,7 @@ structure State where
   ws : Nat → Waiter := fun _ => {}
   awaiting : Nat → Option Nat := fun _ => none   -- awaitingReply: request id → waiter
   inbox : List (Option RMsg) := []      -- router → client channel; `none` = closed
+  arrived : List RMsg := []             -- ghost: every message the router sent, newest first
   rclosed : Bool := false
   run : RunPhase := .idle
   recvDone : Bool := false              -- sess.EndRecv was called
@@ -158,9 +159,9 @@ def State.setW (st : State) (g : Nat) (w : Waiter) : State :=
 
 def State.emit (st : State) (o : Out) : State := { st with out := o :: st.out }
 
-/-- `c.sess.Send() <- m`: the scripted router always receives; a send on the closed channel panics. -/
-def State.sendR (st : State) (m : CMsg) : State :=
-  if st.sendClosed then { st with crashed := some "send on closed channel" } else st.emit (.send m)
+/-- `c.sess.Send() <- m`: the scripted router always receives. (A send after `sess.Close()` panics:
+    `step` turns a step that sent something while the send side was closed into a crash.) -/
+def State.sendR (st : State) (m : CMsg) : State := st.emit (.send m)
 
 /-- `id := c.sess.IDGen.Next()` (regenerated `idGenNext`). -/
 def State.nextId (st : State) : State × Nat :=
@@ -169,6 +170,10 @@ def State.nextId (st : State) : State × Nat :=
 
 def State.setAwait (st : State) (id : Nat) (g : Option Nat) : State :=
   { st with awaiting := fun i => if i = id then g else st.awaiting i }
+
+/-- `delete(c.awaitingReply, id)` — as far as the wait functions still contain it (regenerated fact). -/
+def State.forget (st : State) (cfg : Cfg) (id : Nat) : State :=
+  if cfg.deletesEntry then st.setAwait id none else st
 
 /-! ### the receive switch, through the regenerated table -/
 
@@ -249,24 +254,29 @@ def Ev.isRun : Ev → Bool
 def State.runExit (st : State) : State :=
   ({ st with run := .exited, done := true }).emit .done
 
+/-- What the API call does with what `waitForReply…` returned, before it returns itself: store the
+    handler (Subscribe / Register), unpack a PPT result (Call; may panic; on a protocol violation
+    sends ABORT and closes the send side). Yields the state and what the call returns. -/
+def postProcess (cfg : Cfg) (st : State) (w : Waiter) (r : Ret) : Outcome (State × Ret) :=
+  match w.op, r with
+  | .subscribe, .msg (.subscribed _ sub) =>
+    .ok ({ st with eventHandlers := sub :: st.eventHandlers, topicSub := (w.name, sub) :: st.topicSub }, r)
+  | .register, .msg (.registered _ reg) =>
+    .ok ({ st with invHandlers := reg :: st.invHandlers, procReg := (w.name, reg) :: st.procReg }, r)
+  | .call, .msg (.result q d a k) =>
+    match prepareCallResult cfg.pptChecked cfg.deser cfg.dealerPPT d a k with
+    | .panic site => .panic site
+    | .ok .abort => .ok ({ st.sendR (.abort N.ErrProtocolViolation) with sendClosed := true }, .pptAbort)
+    | .ok (.err e) => .ok (st, .pptErr e)
+    | .ok (.ok a' k') => .ok (st, .msg (.result q d a' k'))
+  | _, _ => .ok (st, r)
+
 /-- The part of the API call after `waitForReply…` (and progDone) returned `r`. -/
 def complete (cfg : Cfg) (st : State) (g : Nat) (r : Ret) : State :=
   let w := st.ws g
-  let fin (st : State) (r : Ret) : State := (st.setW g { w with phase := .returned r }).emit (.ret g r)
-  match w.op, r with
-  | .subscribe, .msg (.subscribed _ sub) =>
-    fin { st with eventHandlers := sub :: st.eventHandlers, topicSub := (w.name, sub) :: st.topicSub } r
-  | .register, .msg (.registered _ reg) =>
-    fin { st with invHandlers := reg :: st.invHandlers, procReg := (w.name, reg) :: st.procReg } r
-  | .call, .msg (.result q d a k) =>
-    match prepareCallResult cfg.pptChecked cfg.deser cfg.dealerPPT d a k with
-    | .panic site => { st with crashed := some site }
-    | .ok .abort =>
-      let st := st.sendR (.abort N.ErrProtocolViolation)
-      if st.crashed.isSome then st else fin { st with sendClosed := true } .pptAbort
-    | .ok (.err e) => fin st (.pptErr e)
-    | .ok (.ok a' k') => fin st (.msg (.result q d a' k'))
-  | _, _ => fin st r
+  match postProcess cfg st w r with
+  | .panic site => { st with crashed := some site }
+  | .ok (st1, r') => (st1.setW g { w with phase := .returned r' }).emit (.ret g r')
 
 def requestMsg (op : OpKind) (id : Nat) (name : String) (x : Nat) (prog : Bool) : CMsg :=
   match op with
@@ -288,64 +298,76 @@ def startRequest (st : State) (g : Nat) (op : OpKind) (name : String) (x : Nat) 
 def returnNow (st : State) (g : Nat) (op : OpKind) (name : String) (r : Ret) : State :=
   (st.setW g { op := op, name := name, phase := .returned r }).emit (.ret g r)
 
+/-- Unsubscribe / Unregister first look the name up and forget the handler (whatever the router
+    will answer); the other calls have nothing to prepare. Returns the state and the id to send. -/
+def prepare (st : State) (op : OpKind) (name : String) : Except Ret (State × Nat) :=
+  match op with
+  | .unsubscribe =>
+    match lookup st.topicSub name with
+    | none => .error .notSubscribed
+    | some sub =>
+      .ok ({ st with topicSub := st.topicSub.filter (fun p => p.1 != name),
+                     eventHandlers := st.eventHandlers.filter (· != sub) }, sub)
+  | .unregister =>
+    match lookup st.procReg name with
+    | none => .error .notRegistered
+    | some reg =>
+      .ok ({ st with procReg := st.procReg.filter (fun p => p.1 != name),
+                     invHandlers := st.invHandlers.filter (· != reg) }, reg)
+  | _ => .ok (st, 0)
+
+/-- An unacknowledged Publish: draw an id, send, return. -/
+def fireAndForget (st : State) (g : Nat) (name : String) : State :=
+  let (st, id) := st.nextId
+  returnNow (st.sendR (requestMsg .publishNoAck id name 0 false)) g .publishNoAck name .ok
+
 def apiStart (st : State) (g : Nat) (op : OpKind) (name : String) (prog : Bool) : Option State :=
   match (st.ws g).phase with
   | .idle =>
-    match op with
-    | .unsubscribe =>
-      match lookup st.topicSub name with
-      | none => some (returnNow st g op name .notSubscribed)
-      | some sub =>
-        let st := { st with topicSub := st.topicSub.filter (fun p => p.1 != name),
-                            eventHandlers := st.eventHandlers.filter (· != sub) }
-        if st.done then some (returnNow st g op name .notConn) else some (startRequest st g op name sub false)
-    | .unregister =>
-      match lookup st.procReg name with
-      | none => some (returnNow st g op name .notRegistered)
-      | some reg =>
-        let st := { st with procReg := st.procReg.filter (fun p => p.1 != name),
-                            invHandlers := st.invHandlers.filter (· != reg) }
-        if st.done then some (returnNow st g op name .notConn) else some (startRequest st g op name reg false)
-    | .publishNoAck =>
-      if st.done then some (returnNow st g op name .notConn) else
-      let (st, id) := st.nextId
-      let st := st.sendR (requestMsg op id name 0 false)
-      if st.crashed.isSome then some st else some (returnNow st g op name .ok)
-    | _ =>
-      if st.done then some (returnNow st g op name .notConn) else some (startRequest st g op name 0 prog)
+    match prepare st op name with
+    | .error r => some (returnNow st g op name r)
+    | .ok (st1, x) =>
+      if st1.done then some (returnNow st1 g op name .notConn)
+      else if op == .publishNoAck then some (fireAndForget st1 g name)
+      else some (startRequest st1 g op name x prog)
   | _ => none
+
+/-- What `runReceiveFromRouter` does with message `m` (already taken from the transport and
+    logged), up to the point where it would block. -/
+def dispatch (cfg : Cfg) (st : State) (m : RMsg) : State :=
+  match actionOf m.typeName with
+  | .signal f =>
+    match (m.field? f).bind st.awaiting with
+    | none => st.emit (.unclaimed m)
+    | some g => { st with run := .signalling g m }
+  | .handler fn =>
+    match m with
+    | .event sub pub d a k =>
+      if fn == "runHandleEvent" then
+        if st.eventHandlers.contains sub then
+          match eventPpt cfg.pptChecked cfg.deser d a k with
+          | .panic site => { st with crashed := some site }
+          | .ok (.dropped _) => st.emit (.eventDropped sub)
+          | .ok (.handle a' k') => { st with run := .inEvent }.emit (.eventStart sub pub a' k')
+        else st.emit (.eventDropped sub)
+      else { st with run := .busy m }.emit (.toWorker m)
+    | _ => { st with run := .busy m }.emit (.toWorker m)
+  | .exit _ => st.runExit
+  | .unhandled => st.emit (.unhandled (typeCode m))
+
+def State.pop (st : State) (rest : List (Option RMsg)) : State := { st with inbox := rest }
 
 def runRecv (cfg : Cfg) (st : State) : Option State :=
   match st.run, st.inbox with
-  | .idle, none :: rest => some ({ st with inbox := rest }).runExit
-  | .idle, some m :: rest =>
-    let st := ({ st with inbox := rest }).emit (.recv m)
-    match actionOf m.typeName with
-    | .signal f =>
-      match (m.field? f).bind st.awaiting with
-      | none => some (st.emit (.unclaimed m))
-      | some g => some { st with run := .signalling g m }
-    | .handler fn =>
-      match m with
-      | .event sub pub d a k =>
-        if fn == "runHandleEvent" then
-          if st.eventHandlers.contains sub then
-            match eventPpt cfg.pptChecked cfg.deser d a k with
-            | .panic site => some { st with crashed := some site }
-            | .ok (.dropped _) => some (st.emit (.eventDropped sub))
-            | .ok (.handle a' k') => some ({ st with run := .inEvent }.emit (.eventStart sub pub a' k'))
-          else some (st.emit (.eventDropped sub))
-        else some ({ st with run := .busy m }.emit (.toWorker m))
-      | _ => some ({ st with run := .busy m }.emit (.toWorker m))
-    | .exit _ => some st.runExit
-    | .unhandled => some (st.emit (.unhandled (typeCode m)))
+  | .idle, none :: rest => some (st.pop rest).runExit
+  | .idle, some m :: rest => some (dispatch cfg ((st.pop rest).emit (.recv m)) m)
   | _, _ => none
 
-def step (cfg : Cfg) (st : State) (ev : Ev) : Option State :=
-  if st.crashed.isSome then none else
+/-- One event, not yet looking at whether the send side is closed. -/
+def stepCore (cfg : Cfg) (st : State) (ev : Ev) : Option State :=
   match ev with
   | .tick d => some { st with now := st.now + d }
-  | .inject m => if st.rclosed then none else some { st with inbox := st.inbox ++ [some m] }
+  | .inject m => if st.rclosed then none else some { st with inbox := st.inbox ++ [some m], arrived := m :: st.arrived }
   | .injectClose => if st.rclosed then none else some { st with inbox := st.inbox ++ [none], rclosed := true }
   | .apiStart g op name prog => apiStart st g op name prog
   | .ctxEnd g k =>
@@ -372,7 +394,6 @@ def step (cfg : Cfg) (st : State) (ev : Ev) : Option State :=
     | .waiting, some k =>
       if w.op == .call then
         let st := st.sendR (.cancel w.req cfg.cancelMode)
-        if st.crashed.isSome then some st else
         some (st.setW g { w with phase := .cancelWaiting k, cancelled := true, deadline := st.now + cfg.timeout })
       else none
     | _, _ => none
@@ -412,7 +433,7 @@ def step (cfg : Cfg) (st : State) (ev : Ev) : Option State :=
     let w := st.ws g
     match w.phase with
     | .finishing r =>
-      let st := if cfg.deletesEntry then st.setAwait w.req none else st
+      let st := st.forget cfg w.req
       if w.hasProg then some (st.setW g { w with phase := .closing r }) else some (complete cfg st g r)
     | _ => none
   | .callReturn g =>
@@ -439,8 +460,7 @@ def step (cfg : Cfg) (st : State) (ev : Ev) : Option State :=
       if st.done then some { st with close := .waitWorkers }
       else
         let st := st.sendR (.goodbye N.CloseRealm)
-        if st.crashed.isSome then some st
-        else some { st with close := .sentGoodbye (st.now + cfg.closeFactor * cfg.timeout) }
+        some { st with close := .sentGoodbye (st.now + cfg.closeFactor * cfg.timeout) }
     | _ => none
   | .closeSeeDone =>
     match st.close with
@@ -457,6 +477,24 @@ def step (cfg : Cfg) (st : State) (ev : Ev) : Option State :=
       if st.sendClosed then some { st with crashed := some "close of closed channel" }
       else some ({ st with close := .returned, sendClosed := true }.emit .closeReturned)
     | _ => none
+
+def Out.isSend : Out → Bool
+  | .send _ => true
+  | _ => false
+
+/-- Did the step from `st` to `st'` hand a message to the transport? -/
+def sentSomething (st st' : State) : Bool :=
+  (st'.out.take (st'.out.length - st.out.length)).any Out.isSend
+
+/-- One event. A crashed client takes no step; a step that sends after `sess.Close()` closed the
+    send channel panics instead ("send on closed channel"). -/
+def step (cfg : Cfg) (st : State) (ev : Ev) : Option State :=
+  if st.crashed.isSome then none else
+  match stepCore cfg st ev with
+  | none => none
+  | some st' =>
+    if st.sendClosed && sentSomething st st' then some { st with crashed := some "send on closed channel" }
+    else some st'
 
 def steps (cfg : Cfg) (st : State) : List Ev → Option State
   | [] => some st
